@@ -145,6 +145,7 @@ func TestC15(t *testing.T) {
 		return
 	}
 	avoidAll := pbt.AvoidTags("C15", "C11", "C12")
+	c.SetRecheck(func(k any) []pbt.Violation { return evalC15(k.(xCase)) })
 	c.ReplayKnown(t, func(raw json.RawMessage) []pbt.Violation {
 		var k xCase
 		if err := json.Unmarshal(raw, &k); err != nil || k.Prog == nil {
